@@ -16,7 +16,7 @@ import numpy as np
 
 import sim  # noqa: F401
 from sim.actors import ActorKilled, AppError, Scheduler, TaskActor, ThreadActor
-from sim.core import HarnessError, attempt
+from sim.core import HarnessError, attempt, deep_tier
 
 PROPERTY = "C19"
 LEVEL = "exploration"
@@ -92,6 +92,10 @@ def generate(rng, seed, part):
     env = PARTITIONS[part]["env"]["PHYST_FREE_ARITHMETICS"]
     n_root = rng.randint(2, 4)
     n_child = rng.randint(0, 2)
+    deep = deep_tier(rng)
+    if deep:
+        n_root = rng.randint(3, 6)
+        n_child = rng.randint(1, 4)
     actors = []
     child_ids = list(range(n_root, n_root + n_child))
     style = rng.choice(["mixed", "mixed", "threads", "tasks"])
@@ -105,7 +109,7 @@ def generate(rng, seed, part):
         actors.append({"id": aid, "kind": kind, "root": aid < n_root, "program": None})
     spawnable = list(child_ids)
     for a in actors:
-        budget = [rng.randint(4, 14)]
+        budget = [rng.randint(4, 14) if not deep else rng.randint(10, 30)]
         can_spawn = []
         # a thread cannot create asyncio tasks (no loop in its thread)
         if a["root"]:
@@ -122,7 +126,7 @@ def generate(rng, seed, part):
             actors[c]["kind"] = "thread"
         actors[0]["program"].append({"op": "spawn", "child": c})
     sched = []
-    n_sched = rng.randint(10, 70)
+    n_sched = rng.randint(10, 70) if not deep else rng.randint(60, 250)
     ids = [a["id"] for a in actors]
     for _ in range(n_sched):
         r = rng.random()
